@@ -110,6 +110,10 @@ def gen_plan(run_seed, tier, profile, focus):
     return _gen_rsa(r, tier, f, focus)
   if profile == "rsa_large":
     return _gen_rsa_large(r, tier, f, focus)
+  if profile == "rsa_lhw":
+    return _gen_rsa_lhw(r, tier, f, focus)
+  if profile == "rsa_huge":
+    return _gen_rsa_huge(r, tier, f, focus)
   if profile == "ecdsa_large":
     from dst import engine_a_gen_ec as E
     return E.gen_ecdsa_large(r, tier, f, focus)
@@ -535,6 +539,61 @@ def _gen_rsa_large(r, tier, f, focus):
                                     "denylist": _empty_deny()},
           "pool": pool, "initial_annotations": {}, "ops": ops,
           "timeout": 2400.0}
+
+
+def _gen_rsa_lhw(r, tier, f, focus):
+  """The one check with a documented severity exception and the most expensive
+  negative path: a 'suspected only' key (full search, ~12 s per call) before
+  and after keys that are factored, in one batch and across calls."""
+  pool = [A.rsa_lhw_suspected(r, r.choice([1024, 2048])),
+          A.rsa_low_hamming(r), A.rsa_healthy(r), A.rsa_low_hamming(r)]
+  reg = {"name": "CheckLowHammingWeight", "how": "registry", "via": "all"}
+  orders = [[0, 1, 2], [1, 2], [3, 0], [2, 3]]
+  r.shuffle(orders)
+  ops = [{"op": "check", "check": reg, "batch": b, "oracle": [], "c07": True}
+         for b in orders[:3]]
+  if r.random() < 0.5:
+    ops.insert(r.randint(1, 2), {"op": "clone", "batch": [0, 1, 2, 3]})
+  ops.append({"op": "check", "check": reg, "batch": [1],
+              "oracle": [{"relation": "same", "order": [1]}]})
+  return {"engine": "A", "kind": "rsa", "profile": "rsa_lhw", "focus": focus,
+          "knobs": {"clock_seed": r.getrandbits(32), "denylist": _empty_deny()},
+          "pool": pool, "initial_annotations": {}, "ops": ops,
+          "timeout": 1500.0}
+
+
+def _gen_rsa_huge(r, tier, f, focus):
+  """Thousands of small moduli in one aggregate call (product-tree depth,
+  any internal chunking): a few related pairs far apart in the batch."""
+  n = r.randint(4200, 5200) if tier == "quick" else r.randint(4200, 9000)
+  pool = []
+  seen = set()
+  while len(pool) < n:
+    m = A.rand_prime(r, 32) * A.rand_prime(r, 33)
+    if m >= 2**63 and m not in seen:
+      seen.add(m)
+      pool.append(A.rsa_art(m, fam="small_healthy"))
+  for _ in range(3):
+    p = A.rand_prime(r, 33)
+    i, j = r.randrange(0, 200), r.randrange(n - 200, n)
+    if r.random() < 0.5:
+      i, j = r.randrange(n), r.randrange(n)
+    pool[i] = A.rsa_art(p * A.rand_prime(r, 32), fam="shared_prime",
+                        shared=A.i2h(p), expect=["CheckGCD"])
+    pool[j] = A.rsa_art(p * A.rand_prime(r, 33), fam="shared_prime",
+                        shared=A.i2h(p), expect=["CheckGCD"])
+  order = list(range(n))
+  perm = r.sample(order, n)
+  ops = [{"op": "check", "batch": order, "c07": False,
+          "check": {"name": "CheckGCD", "how": "registry", "via": "all"},
+          "oracle": [{"relation": "perm", "order": perm}]},
+         {"op": "check", "batch": perm[:n // 2], "c07": False,
+          "check": {"name": "CheckGCDN1", "how": "registry",
+                    "via": "aggregates"}, "oracle": []}]
+  return {"engine": "A", "kind": "rsa", "profile": "rsa_huge", "focus": focus,
+          "knobs": {"clock_seed": r.getrandbits(32), "denylist": _empty_deny()},
+          "pool": pool, "initial_annotations": {}, "ops": ops,
+          "timeout": 1500.0}
 
 
 def _rsa_bad_call(r, names):
